@@ -660,6 +660,44 @@ fault_harness!(tx_commit_fault_04_write, 4, 0);
 fault_harness!(tx_commit_fault_05_flush, 5, 0);
 // @ob props=C11 tier=quick cap=700 mem=10 fns=Tx::commit,TxInner::write_data,DBInner::meta bound="failing call 6: sync after the data pages" unwind=520
 fault_harness!(tx_commit_fault_06_sync, 6, 0);
+// ---- the sync fault under a SMALL unwind bound. A change that swallows the failed sync makes write_data DROP the
+// io::Error; the drop glue of std::io::Error is recursive (Custom -> Box<dyn Error> -> possibly an io::Error again) and
+// Kani unrolls recursion up to the harness's unwind bound: the 520 of the other fault harnesses (page-sized copy
+// loops, 384-word snapshot loops) does not finish on such a tree. Here copies run in 16-byte chunks and the helper
+// loops are nested (<= 32 iterations each), so 40 is enough.
+fn commit_with_sync_fault_small_bound() {
+    let db = mk_db(&[4, 5], false);
+    let mut fl = Freelist::new();
+    fj::push_free(&mut fl, 4);
+    fj::push_free(&mut fl, 5);
+    {
+        let mut g = db.inner.freelist.lock().unwrap();
+        *g = fl;
+    }
+    let tx = match begin_and_dirty(db) {
+        Some(t) => t,
+        None => return,
+    };
+    let d = jv_env::disk();
+    d.fail_at = 6;
+    let r = tx.commit();
+    assert!(d.nfailed > 0, "the fault plan names a call the commit really issues");
+    assert!(matches!(r, Err(Error::Io(_))), "JV-C11-SWALLOWED: a failed sync is reported as an error");
+    std::mem::forget(r);
+    assert!(!db.inner.file.is_held(), "the writer lock is released either way");
+    let m = db.inner.meta();
+    assert!(m.is_ok());
+    if let Ok(m) = m {
+        assert!(m.tx_id == C && m.meta_page == 1, "the header page was not written after the failed sync");
+    }
+}
+// @ob props=C11 tier=thorough cap=900 mem=12 fns=Tx::commit,TxInner::write_data,DBInner::meta bound="failing call 6: the sync after the data pages; unwind bound 40 (chunked copies)" unwind=40
+#[kani::proof]
+#[kani::stub(core::ptr::copy_nonoverlapping, crate::jv_top_stubs::copy_nonoverlapping_chunked)]
+#[kani::unwind(40)]
+fn tx_commit_fault_06_sync_small_bound() {
+    commit_with_sync_fault_small_bound();
+}
 // @ob props=C11 tier=thorough cap=1200 mem=12 fns=Tx::commit,TxInner::write_data bound="failing call 7: seek to the header slot" unwind=520
 fault_harness!(tx_commit_fault_07_seek, 7, 0);
 // @ob props=C11 tier=thorough cap=1200 mem=12 fns=Tx::commit,TxInner::write_data,DBInner::meta bound="failing call 8: write of the header page (error, nothing written)" unwind=520
